@@ -130,6 +130,7 @@ const std::map<OrderEdge, EdgeWitness> &order_edges();     // accumulated over t
 const std::vector<std::string> &lock_names();               // id -> name
 void clear_order_edges();
 std::string describe_tasks();
+const char *current_api();            // public API function the running task is in ("" if none) - safe to call from outside the simulation
 std::string sym(void *addr);
 
 // ---- lockset monitor for GLib containers (library calls into g_queue_* / g_hash_table_* / g_array_*)
